@@ -351,6 +351,9 @@ def explore_send(F, f):
         return {r.block for r in tr.roots_of_operand(op) if r.kind == "call" and r.block in fall}
 
     headers = set(f.loop_headers())
+    loop_blocks = set()
+    for h in headers:
+        loop_blocks |= f.natural_loop(h)
 
     # state: (pending call block or None, enobufs, downsized, attempted_since_err)
     def step(b, st, env):
@@ -363,7 +366,7 @@ def explore_send(F, f):
             else:
                 stats["retry_edges"] += 1
             pend, enob, down = None, None, None
-        if pend is not None and pos is not None:
+        if pend is not None and pos is not None and b in loop_blocks:
             for s in f.stmts(b):
                 if s["s"] == "assign" and not s["lhs"].get("p") and s["lhs"]["l"] == pos:
                     problems.setdefault(("RETRY-POS", "position-advances-after-error"), b)
@@ -627,6 +630,60 @@ def _def_call(f, operand):
 
 # =========================================================================== C02 / C04 / C01 (sender side)
 
+def pair_anchors(F, f):
+    """creation sites of a per-message socket pair inside f: calls to the crate's channel(), and direct libc::socketpair calls"""
+    chan = {b for b, t in f.calls() if strip_generics(callee_name(t)).endswith("::channel") and strip_generics(callee_name(t)).startswith("platform::")}
+    sp = {}
+    from rules.fd import _out_array_local, _out_array_via_call
+    for b, t in f.calls_to("libc::socketpair"):
+        arr = _out_array_local(f, t["args"][3]) or _out_array_via_call(f, t["args"][3])
+        if arr is not None:
+            sp[arr] = b
+    return chan, sp
+
+
+def endpoint_origin(F, f, tr, operand, anchors, extra=()):
+    """where a descriptor / endpoint value comes from: set of (anchor, half) with anchor ('chan', block) | ('sp', array local) |
+    ('param', i) | ('other', repr)"""
+    chan, sp = anchors
+    out = set()
+    for r in tr.roots_of_operand(operand, extra):
+        out |= _origin_of_root(F, f, tr, r, anchors, 0)
+    return out
+
+
+def _origin_of_root(F, f, tr, r, anchors, depth):
+    chan, sp = anchors
+    if depth > 4:
+        return {(("other", repr(r)), None)}
+    if r.kind == "call" and r.block in chan:
+        idx = r.field_idx()
+        return {(("chan", r.block), idx[1] if len(idx) > 1 else None)}
+    if r.kind == "call" and (r.id.endswith("::from_fd") or r.id in ("std::sync::Arc::new", "std::cell::Cell::new")):
+        t = f.term(r.block)
+        out = set()
+        for x in tr.roots_of_operand(t["args"][0]):
+            out |= _origin_of_root(F, f, tr, x, anchors, depth + 1)
+        return out
+    if r.kind == "agg" and r.id == "array":
+        # element of a local array: which one?
+        for p_ in r.path:
+            if p_[0] == "idx":
+                from rules.fd import _const_of_local
+                c = _const_of_local(f, p_[1])
+                for arr, b in sp.items():
+                    if any(d[0] == r.block for d in f.defs().get(arr, [])):
+                        return {(("sp", arr), c)}
+            if p_[0] == "cidx":
+                for arr, b in sp.items():
+                    if any(d[0] == r.block for d in f.defs().get(arr, [])):
+                        return {(("sp", arr), p_[1])}
+        return {(("other", "array"), None)}
+    if r.kind == "param":
+        return {(("param", r.id), None)}
+    return {(("other", repr(r)), None)}
+
+
 def rule_frag_route(ctx, cfg, F):
     R = ctx.rule("FRAG-ROUTE", "follow-up fragments are transmitted only on the sender half of a socketpair created by channel() in the same invocation of send, never on "
                  "the shared channel descriptor; the receiver half of that same pair is the descriptor appended to the list before the fragmented first-fragment call; "
@@ -638,23 +695,21 @@ def rule_frag_route(ctx, cfg, F):
     tr = Tracer(f)
     funame = strip_generics(fu.path)
     n = 0
-    chan_blocks = {b for b, t in f.calls() if strip_generics(callee_name(t)).endswith("::channel") and strip_generics(callee_name(t)).startswith("platform::")}
-    R.count("channel_calls[%s]" % cfg, len(chan_blocks))
-    pair_block = None
+    anchors = pair_anchors(F, f)
+    R.count("channel_calls[%s]" % cfg, len(anchors[0]) + len(anchors[1]))
+    pair = None
     for b, t in f.calls():
         if strip_generics(callee_name(t)) != funame:
             continue
         n += 1
-        roots = tr.roots_of_operand(t["args"][0])
-        srcs = {r.block for r in roots if r.kind == "call" and r.block in chan_blocks}
-        other = [r for r in roots if not (r.kind == "call" and r.block in chan_blocks)]
-        halves = {r.field_idx()[1] if len(r.field_idx()) > 1 else None for r in roots if r.kind == "call" and r.block in chan_blocks}
-        if srcs and not other and halves == {0}:
-            pair_block = next(iter(srcs))
-            R.ok("follow-up transmitter uses the sender half of the channel() pair created in this call", f.loc(b), cfg)
+        org = endpoint_origin(F, f, tr, t["args"][0], anchors)
+        good = len(org) == 1 and next(iter(org))[0][0] in ("chan", "sp") and next(iter(org))[1] == 0
+        if good:
+            pair = next(iter(org))[0]
+            R.ok("follow-up transmitter uses the sending half of the socket pair created in this call (%s)" % (pair,), f.loc(b), cfg)
         else:
-            R.violate("%s:followup-on-shared-socket" % f.path, "a follow-up fragment is transmitted on a descriptor that is not the sender half of this message's own socketpair (%s): "
-                      "fragments of concurrent messages can interleave on the shared socket" % sorted(map(repr, roots))[:2], f.path, f.loc(b), config=cfg)
+            R.violate("%s:followup-on-shared-socket" % f.path, "a follow-up fragment is transmitted on a descriptor that is not the sending half of a socket pair created by this call (%s): "
+                      "fragments of concurrent messages can interleave on the shared socket" % sorted(map(repr, org))[:2], f.path, f.loc(b), config=cfg)
     R.count("followup_sites[%s]" % cfg, n)
     # direct libc::send inside the follow-up transmitter uses its parameter
     trf = Tracer(fu)
@@ -664,18 +719,19 @@ def rule_frag_route(ctx, cfg, F):
         else:
             R.violate("%s:send-fd-not-parameter" % fu.path, "libc::send does not use the function's descriptor parameter", fu.path, fu.loc(b), config=cfg)
     # the receiver half is pushed onto the descriptor list and that push dominates the fragmented first-fragment call
-    if pair_block is not None:
+    if pair is not None:
         pushes = []
         for b, t in f.calls_to("std::vec::Vec::push"):
-            for r in tr.roots_of_operand(t["args"][1]):
-                if r.kind == "call" and r.block == pair_block and (r.field_idx()[1:2] == (1,)):
-                    pushes.append(b)
+            org = endpoint_origin(F, f, tr, t["args"][1], anchors)
+            if any(o[0] == pair and o[1] == 1 for o in org):
+                pushes.append(b)
         ffname = strip_generics(ff.path)
+        pair_block = pair[1] if pair[0] == "chan" else anchors[1][pair[1]]
         frag_sites = [b for b, t in f.calls() if strip_generics(callee_name(t)) == ffname and f.dominates(pair_block, b)]
-        if pushes and frag_sites and all(any(f.dominates(p, s) for p in pushes) for s in frag_sites):
-            R.ok("the receiver half of the same pair is appended to the descriptor list before the fragmented first-fragment call", f.loc(pushes[0]), cfg)
+        if pushes and frag_sites and all(any(f.dominates(p, s_) for p in pushes) for s_ in frag_sites):
+            R.ok("the receiving half of the same pair is appended to the descriptor list before the fragmented first-fragment call", f.loc(pushes[0]), cfg)
         else:
-            R.violate("%s:dedicated-receiver-not-attached" % f.path, "the receiver half of the per-message pair is not appended to the descriptor list before the fragmented first fragment is sent", f.path, f.loc(pair_block), config=cfg)
+            R.violate("%s:dedicated-receiver-not-attached" % f.path, "the receiving half of the per-message pair is not appended to the descriptor list before the fragmented first fragment is sent", f.path, f.loc(pair_block), config=cfg)
     # receiving side
     g = next((x for x in F.fns.values() if any(strip_generics(callee_name(t)) == "libc::recv" for _, t in x.calls())), None)
     if g is None:
@@ -704,8 +760,8 @@ def rule_dedicated_last(ctx, cfg, F):
     f = send_fn(F)
     if f:
         tr = Tracer(f)
-        chan_blocks = {b for b, t in f.calls() if strip_generics(callee_name(t)).endswith("::channel") and strip_generics(callee_name(t)).startswith("platform::")}
-        ded = [b for b, t in f.calls_to("std::vec::Vec::push") if any(r.kind == "call" and r.block in chan_blocks for r in tr.roots_of_operand(t["args"][1]))]
+        anchors = pair_anchors(F, f)
+        ded = [b for b, t in f.calls_to("std::vec::Vec::push") if any(o[0][0] in ("chan", "sp") and o[1] == 1 for o in endpoint_origin(F, f, tr, t["args"][1], anchors))]
         if not ded:
             R.violate("%s:no-dedicated-push" % f.path, "the per-message receiver is never appended to the descriptor list", f.path, config=cfg)
         for d in ded:
@@ -834,19 +890,23 @@ def rule_peer_closed(ctx, cfg, F):
         return
     tr = Tracer(f)
     funame = strip_generics(fu.path)
-    chan_blocks = {b for b, t in f.calls() if strip_generics(callee_name(t)).endswith("::channel") and strip_generics(callee_name(t)).startswith("platform::")}
+    anchors = pair_anchors(F, f)
+    chan_blocks = set(anchors[0]) | set(anchors[1].values())
     fu_blocks = {b for b, t in f.calls() if strip_generics(callee_name(t)) == funame}
     R.count("followup_sites[%s]" % cfg, len(fu_blocks))
     if not chan_blocks or not fu_blocks:
-        R.violate("%s:no-dedicated-channel" % f.path, "no per-message channel() / follow-up transmission in send", f.path, config=cfg)
+        R.violate("%s:no-dedicated-channel" % f.path, "no per-message socket pair / follow-up transmission in send", f.path, config=cfg)
         return
-    # holders of the receiver half: locals whose value derives from channel().1
+    # holders of the receiving half: owning locals whose value derives from half 1 of the pair
     holders = set()
     for i, l in enumerate(f.locals):
         if "OsIpcReceiver" in l["t"] and not l["t"].startswith("&"):
-            if any(r.kind == "call" and r.block in chan_blocks and (1,) == r.field_idx()[1:2] for r in tr.roots(i)) or \
-               any(r.kind == "call" and r.block in chan_blocks and (1,) == r.field_idx()[1:2] for r in tr.roots(i, (("f", 0, ""),))):
-                holders.add(i)
+            for extra in ((), (("f", 0, ""),)):
+                org = set()
+                for r in tr.roots(i, extra):
+                    org |= _origin_of_root(F, f, tr, r, anchors, 0)
+                if any(o[0][0] in ("chan", "sp") and o[1] == 1 for o in org):
+                    holders.add(i)
     P = _position_local(f, tr)
     ex = Explorer(f)
     bad = {}
@@ -867,7 +927,7 @@ def rule_peer_closed(ctx, cfg, F):
         for s in f.stmts(b):
             if s["s"] == "assign" and not s["lhs"].get("p") and s["lhs"]["l"] == P:
                 pz = (s["rv"]["r"] == "use" and op_const(s["rv"]["a"][0]) == 0)
-        if b in chan_blocks:
+        if b in chan_blocks or any(d[0] == b for h in holders for d in f.defs().get(h, [])):
             held = True
         if b in fu_blocks and held:
             bad.setdefault(b, True)
